@@ -117,4 +117,88 @@ theorem propagate_fft_energy_aux (fs : List (Fld ℂ)) (W0 W1 : ℕ) (dx0 dx1 du
   rw [e0, e1]
   exact hpl.2
 
+theorem propagate_fft_energy_cons (fs : List (Fld ℂ)) (W0 W1 : ℕ) (dx0 dx1 du0 du1 wl z : ℝ) (os : ℤ)
+    (shape : Option (ℤ × ℤ)) (scratch : Option (Arr ℂ)) (lam : ℝ) (S0 S1 : ℤ) (so : ℤ × ℤ) (g : Fld ℂ)
+    (h : propagateFft 1 fs false W0 W1 dx0 dx1 du0 du1 wl z os shape scratch = FftOut.ok lam S0 S1 so g)
+    (hcons : dx0 * du0 = dx1 * du1 ∨ (S0 : ℝ) * (dx0 * du0) = (S1 : ℝ) * (dx1 * du1))
+    (hp : dx0 * du0 ≠ 0) (hp1 : dx1 * du1 ≠ 0) (hz : z ≠ 0) (hos : 0 < os) (hS : 0 < S0 ∧ 0 < S1)
+    (hW : (W0 : ℤ) ≤ S0 ∧ (W1 : ℤ) ≤ S1) (hfit : ∀ f ∈ fs, f.within W0 W1)
+    (hpos : ∀ f ∈ fs, 0 < f.arr.s0 ∧ 0 < f.arr.s1) (hso : 0 < so.1 ∧ 0 < so.2) :
+    ∑ i ∈ range so.1.toNat, ∑ j ∈ range so.2.toNat, Complex.normSq ((wavefrontField 1 [g] so.1 so.2).get i j)
+      ≤ arrSum (intensity (R := ℝ) (embedAll fs W0 W1)) ∧
+    (so = (S0, S1) →
+      ∑ i ∈ range so.1.toNat, ∑ j ∈ range so.2.toNat, Complex.normSq ((wavefrontField 1 [g] so.1 so.2).get i j)
+        = arrSum (intensity (R := ℝ) (embedAll fs W0 W1))) := by
+  have hosR : ((os : ℤ) : ℝ) ≠ 0 := Int.cast_ne_zero.mpr (by omega)
+  -- unpack the accepted call: square grid, reported wavelength, output shape inside the grid
+  have hfacts : dftAlpha dx0 dx1 du0 du1 lam z os = (1 / (S0 : ℝ), 1 / (S1 : ℝ)) ∧ so.1 ≤ S0 ∧ so.2 ≤ S1 := by
+    by_cases hb : shapeTooBig (R := ℝ) shape (fftShape dx0 dx1 du0 du1 z wl os) os = true
+    · simp only [propagateFft, Bool.false_eq_true, if_false, hb, if_true] at h; cases h
+    by_cases ht : scratchTooSmall scratch (fftShape dx0 dx1 du0 du1 z wl os) = true
+    · simp only [propagateFft, Bool.false_eq_true, if_false, hb, ht, if_true] at h; cases h
+    simp only [propagateFft, Bool.false_eq_true, if_false, hb, ht, FftOut.ok.injEq] at h
+    obtain ⟨hl, h0, h1, hso', _⟩ := h
+    have hc : (S0 : ℝ) * (dx0 * du0) = (S1 : ℝ) * (dx1 * du1) := by
+      rcases hcons with hiso | hc
+      · have hsq : S0 = S1 := by
+          rw [← h0, ← h1]; simp only [fftShape, Gen.fftShapeAlpha, Gen.fftAlphaCall, Gen.dftAlpha, hiso]
+        rw [hsq, hiso]
+      · exact hc
+    have hSR0 : ((S0 : ℤ) : ℝ) ≠ 0 := Int.cast_ne_zero.mpr (by omega)
+    have hSR1 : ((S1 : ℤ) : ℝ) ≠ 0 := Int.cast_ne_zero.mpr (by omega)
+    rw [h0, h1] at hl
+    have hα := C09.reported_wavelength_consistent (R := ℝ) (fun _ => rfl) (fun a => min_self a) dx0 dx1 du0 du1 z wl os S0 S1 hc hp hp1 hz
+      hosR hSR0 hSR1
+    rw [hl] at hα
+    refine ⟨hα, ?_, ?_⟩
+    · rw [← hso', ← h0]; cases shape with
+      | none => simp [fftShapeOut, Gen.fftShapeOutNone]
+      | some sh =>
+        rw [shapeTooBig_iff (fun _ => rfl) gt_real sh _ os hos] at hb
+        simp only [not_or, not_lt, gt_iff_lt] at hb
+        rw [fftShapeOut_some]; exact hb.1
+    · rw [← hso', ← h1]; cases shape with
+      | none => simp [fftShapeOut, Gen.fftShapeOutNone]
+      | some sh =>
+        rw [shapeTooBig_iff (fun _ => rfl) gt_real sh _ os hos] at hb
+        simp only [not_or, not_lt, gt_iff_lt] at hb
+        rw [fftShapeOut_some]; exact hb.2
+  obtain ⟨hα, hle0, hle1⟩ := hfacts
+  obtain ⟨K, hK⟩ : ∃ K : ℕ, S0 = K := ⟨S0.toNat, by omega⟩
+  obtain ⟨L, hL⟩ : ∃ L : ℕ, S1 = L := ⟨S1.toNat, by omega⟩
+  obtain ⟨s0, hs0⟩ : ∃ s : ℕ, so.1 = s := ⟨so.1.toNat, by omega⟩
+  obtain ⟨s1, hs1⟩ : ∃ s : ℕ, so.2 = s := ⟨so.2.toNat, by omega⟩
+  have hK0 : 0 < K := by omega
+  have hL0 : 0 < L := by omega
+  -- every sample of the FFT output is the field at its frequency coordinate
+  have hsample : ∀ i j : ℕ, i < s0 → j < s1 →
+      (wavefrontField 1 [g] so.1 so.2).get i j = fieldAt fs (1 / (K : ℝ)) (1 / (L : ℝ)) ((i : ℤ) - (s0 : ℤ) / 2) ((j : ℤ) - (s1 : ℤ) / 2) := by
+    intro i j hi hj
+    rw [C09.fft_eq_propagate_dft fs W0 W1 dx0 dx1 du0 du1 wl z os shape scratch lam S0 S1 so g h hcons hp hp1 hz hos hS
+      ⟨by omega, hW.1, by omega, hW.2⟩ hfit hpos hso i j ⟨by omega, by omega⟩ ⟨by omega, by omega⟩, hα]
+    simp only
+    rw [propagateDft_canvas_get fs _ _ so.1 so.2 hso i j ⟨by omega, by omega⟩ ⟨by omega, by omega⟩, hK, hL, hs0, hs1]
+    simp
+  have hfits : ∀ f ∈ fs, Fits f W0 W1 := fun f hf => fits_of_within f W0 W1 (hpos f hf) (hfit f hf)
+  have hWK : W0 ≤ K ∧ W1 ≤ L := by constructor <;> omega
+  have hsum : ∑ i ∈ range so.1.toNat, ∑ j ∈ range so.2.toNat, Complex.normSq ((wavefrontField 1 [g] so.1 so.2).get i j)
+      = ∑ p ∈ Finset.Ico (-((s0 : ℤ) / 2)) (-((s0 : ℤ) / 2) + s0) ×ˢ Finset.Ico (-((s1 : ℤ) / 2)) (-((s1 : ℤ) / 2) + s1),
+          Complex.normSq (fieldAt fs (1 / (K : ℝ)) (1 / (L : ℝ)) p.1 p.2) := by
+    rw [← canvas_sum_eq (fun U V => Complex.normSq (fieldAt fs (1 / (K : ℝ)) (1 / (L : ℝ)) U V)) s0 s1]
+    have e0 : so.1.toNat = s0 := by omega
+    have e1 : so.2.toNat = s1 := by omega
+    rw [e0, e1]
+    exact sum_congr rfl fun i hi => sum_congr rfl fun j hj => by
+      rw [hsample i j (mem_range.mp hi) (mem_range.mp hj)]
+  have hsub : Finset.Ico (-((s0 : ℤ) / 2)) (-((s0 : ℤ) / 2) + s0) ×ˢ Finset.Ico (-((s1 : ℤ) / 2)) (-((s1 : ℤ) / 2) + s1) ⊆ periodBox K L := by
+    unfold periodBox
+    apply Finset.product_subset_product <;> apply Finset.Ico_subset_Ico <;> omega
+  have hpl := plane_energy_le fs W0 W1 K L hfits hK0 hL0 hWK.1 hWK.2 _ hsub
+  rw [hsum]
+  refine ⟨hpl.1, fun hfull => ?_⟩
+  have e0 : s0 = K := by have := congrArg Prod.fst hfull; simp only at this; omega
+  have e1 : s1 = L := by have := congrArg Prod.snd hfull; simp only at this; omega
+  rw [e0, e1]
+  exact hpl.2
+
 end Lentil
